@@ -335,6 +335,34 @@ func (g *generator) fillFile(f *File) {
 		d.Index = g.defIdx
 		f.Defs = append(f.Defs, d)
 	}
+	if len(g.p.Files) == 1 && g.p.Files[0] == f {
+		// the first file of every program carries one struct whose fields reach lists, sets and maps
+		// THROUGH typedefs, required and optional (generated code must see through the alias wherever it
+		// asks "is this a list / a reference type")
+		add := func(d *Def) *Def {
+			g.defIdx++
+			d.Index = g.defIdx
+			d.complete = true
+			f.Defs = append(f.Defs, d)
+			return d
+		}
+		la := add(&Def{File: f, Name: g.topName(f), Kind: Typedef, Target: &Type{K: List, Elem: &Type{K: TKind(g.r.Pick(int(String), int(I32), int(Double)))}}})
+		lb := add(&Def{File: f, Name: g.topName(f), Kind: Typedef, Target: &Type{K: Named, Ref: la}})
+		sa := add(&Def{File: f, Name: g.topName(f), Kind: Typedef, Target: &Type{K: Set, Elem: &Type{K: I32}}})
+		ma := add(&Def{File: f, Name: g.topName(f), Kind: Typedef, Target: &Type{K: Map, Key: &Type{K: String}, Elem: &Type{K: I64}}})
+		host := &Def{File: f, Name: g.topName(f), Kind: Struct}
+		req := func(b bool) Req {
+			if b {
+				return Required
+			}
+			return Optional
+		}
+		for i, t := range []*Def{la, lb, sa, ma, lb} {
+			host.Fields = append(host.Fields, &Field{ID: i + 1, Name: g.fieldName(), Req: req(i != 4 && g.r.Chance(3, 4)), Type: &Type{K: Named, Ref: t}})
+		}
+		host.literalSafe = true
+		add(host)
+	}
 	for i := 0; i < g.cfg.Consts; i++ {
 		g.genConst(f)
 	}
@@ -401,6 +429,21 @@ func (g *generator) genType(f *File, depth int, fwd []*Def) *Type {
 	case roll < 70 && (len(vis) > 0 || len(fwd) > 0):
 		if len(fwd) > 0 && (len(vis) == 0 || r.Chance(1, 4)) {
 			return &Type{K: Named, Ref: fwd[r.Intn(len(fwd))]}
+		}
+		if r.Chance(1, 4) {
+			// typedefs of containers are rare among the visible definitions, yet generated code
+			// treats "is a list / set / map" through them: draw one of those on purpose
+			var cts []*Def
+			for _, d := range vis {
+				if d.Kind == Typedef && d.complete {
+					if k := (&Type{K: Named, Ref: d}).Root().K; k == List || k == Set || k == Map {
+						cts = append(cts, d)
+					}
+				}
+			}
+			if len(cts) > 0 {
+				return &Type{K: Named, Ref: cts[r.Intn(len(cts))]}
+			}
 		}
 		return &Type{K: Named, Ref: vis[r.Intn(len(vis))]}
 	case depth <= 0:
@@ -728,7 +771,8 @@ func (g *generator) genConst(f *File) {
 	if g.r.Chance(1, 4) {
 		var cands []*Constant
 		for _, c := range g.visibleConsts(f) {
-			if c.Type.K == Named && c.Type.IsPrim() {
+			// (the type must be nameable from this file: its definition is local or directly included)
+			if c.Type.K == Named && c.Type.IsPrim() && (c.Type.Ref.File == f || contains(f.Includes, c.Type.Ref.File)) {
 				cands = append(cands, c)
 			}
 		}
